@@ -292,7 +292,7 @@ class URLInfo(object):
 
     @property
     def query_map(self):
-        if self._query_map is None:
+        if self._query_map is None and self.query is not None:
             self._query_map = query_to_map(self.query)
         return self._query_map
 
@@ -686,7 +686,7 @@ def query_to_map(text):
         else:
             dict_obj[key].append('')
 
-    return query_to_map(text)
+    return dict_obj
 
 
 @functools.lru_cache()
